@@ -41,10 +41,7 @@ Proof.
     + intros _. repeat split; auto; try (rewrite Htot; auto); subst c'; pw.
     + intros He. destruct (J5 s I u He) as (_ & H1 & _). specialize (Hall0 u Hne'). lia.
   - discriminate.
-  - intros u q m0. rewrite HT. destruct (Nat.eqb_spec u t) as [->|Hne']; cbn [refs clk x'].
-    + intros Hr' Hq Hn0 Hall1. apply (J7 s I t q m0 ltac:(lia) Hq Hn0).
-      intros m' Hin Hhb. apply (Hall1 m' Hin). eapply hb_mono; [exact Hcc | exact Hhb].
-    + apply (J7 s I u q m0).
+  - apply J7_upd; auto.
   - intros u. rewrite HT. destruct (Nat.eqb_spec u t) as [->|Hne']; cbn [started x']; [discriminate|].
     apply (J8 s I u).
   - intros _ H0. rewrite Htot in H0. lia.
@@ -89,14 +86,14 @@ Proof.
   - discriminate.
   - intros u p m0. rewrite HT. destruct (Nat.eqb_spec u t) as [->|Hne']; cbn [refs clk x'].
     + intros Hr' Hp Hn Hall. exfalso. destruct p as [|p]; [lia|].
-      apply (Hall m); [cbn; left; reflexivity|]. unfold hb. cbn [wt we m]. lia.
+      refine (unseen_own s t x' m _ _ _ p Ht _ Hall). unfold hb. cbn [wt we m clk x']. lia.
     + intros Hr' Hp Hn Hall. destruct p as [|p]; [lia|]. cbn [nth_error] in Hn.
       destruct p as [|p].
       * destruct (msgs s) as [|m1 l1] eqn:Hms; [contradiction|]. cbn in Hn. injection Hn as <-.
         unfold hdm in Hv. rewrite Hms in Hv. cbn [hd] in Hv. rewrite Hv.
         pose proof (T2_le_total s u t Hne'). lia.
       * apply (J7 s I u (S p) m0 Hr' ltac:(lia) Hn).
-        intros m' Hin. apply Hall. cbn [firstn]. right. exact Hin.
+        refine (unseen_cons s t x' m _ _ _ u (S p) Ht _ Hcc Hne' Hall). reflexivity.
   - intros u. rewrite HT. destruct (Nat.eqb_spec u t) as [->|Hne']; cbn [started x']; [discriminate|].
     apply (J8 s I u).
   - intros _ H0. lia.
